@@ -76,7 +76,10 @@ def replay_file(path):
 
 
 def handle(ctx, m, res, crash, font, shape=False):
-    if crash and crash['kind'] != 'timeout':
+    if crash and crash['kind'] != 'timeout' and len(ctx.rec.violations) >= 2:
+        # two failing sweep jobs have been confirmed by replay already (each confirmation of a hang costs 3 x 30 s): count the rest
+        m['classes']['sweep_further_failing_jobs_not_replayed'] = m['classes'].get('sweep_further_failing_jobs_not_replayed', 0) + 1
+    elif crash and crash['kind'] != 'timeout':
         case = dict(crash['case'] or {}, font=font, shape=shape)
         if 'HANG' in crash['stderr']:
             ctx.report(Violation('does-not-return', case, crash['stderr'][-800:]), replay_case)
